@@ -230,6 +230,7 @@ def q_c08_get_range(bodies):
         verdict = "inconclusive"
     if any(p[1] != "inconclusive" for p in problems):
         verdict = "violated"
+    problems.sort(key=lambda p: p[1] == "inconclusive")  # a confirmed problem names the check
     return dict(name=name, property="C08", verdict=verdict, detail="feasible paths=%d; problems: %s" % (ncases, problems[:4] or "none"),
                 functions=sorted(ex.inlined) + ["RecordsBounds::{new,namespace,from_start,to_end} (interval semantics decided by the Kani harnesses bounds_namespace_*), RecordsRange::with_bounds, Iterator::chain (modelled)"],
                 queries=nq, cases=ncases, witness="c08range",
